@@ -104,3 +104,42 @@ Proof.
   exists (filter (acc F) evsU). split; [apply transparent_from_all; assumption|].
   intros keptU keptF HU HF. eapply stutter_closure; [reflexivity | exact HU | exact HF].
 Qed.
+
+(* ------------------------------------------------------------------ C11_full, instantiated with the drained semantics *)
+Record dhist := { dh_cfg : cfg; dh_world : world; dh_ops : list op }.
+
+Definition with_rec (C : cfg) (recursive : bool) : cfg :=
+  {| c_recursive := recursive; c_mask := c_mask C; c_root := c_root C; c_fix_ignored := c_fix_ignored C;
+     c_fix_movein := c_fix_movein C; c_fix_simulate := c_fix_simulate C; c_faults := c_faults C |}.
+
+(* the events queued over a history in which every operation is drained, for a watch with filter F *)
+Definition events_drained (F : option (list evbase)) (full_events recursive : bool) (h : dhist) : list nevent :=
+  match run_from F (with_mask (with_rec (dh_cfg h) recursive) (kmask F recursive)) full_events (dh_world h) (dh_ops h) with
+  | Some evs => evs
+  | None => []
+  end.
+
+(* the unfiltered watch uses WATCHDOG_ALL_EVENTS, the root path is well formed, rename sources have a base name,
+   and the unfiltered reader does not crash *)
+Definition paced_drained (h : dhist) : Prop :=
+  c_mask (dh_cfg h) = WATCHDOG_ALL /\ c_root (dh_cfg h) <> [] /\ last_is_sep (c_root (dh_cfg h)) = false /\
+  Forall op_ok (dh_ops h) /\
+  forall full recursive, run_from None (with_rec (dh_cfg h) recursive) full (dh_world h) (dh_ops h) <> None.
+
+Lemma with_mask_same C : with_mask C (c_mask C) = C.
+Proof. destruct C; reflexivity. Qed.
+
+Theorem full_drained (F : option (list evbase)) (full_events recursive : bool) (h : dhist) :
+  paced_drained h ->
+  stutter_eq (events_drained F full_events recursive h)
+             (filter (fun e => accepts F (ev_cls e)) (events_drained None full_events recursive h)).
+Proof.
+  intros [HM [R1 [R2 [Hops Hrun]]]]. unfold events_drained.
+  set (C := with_rec (dh_cfg h) recursive).
+  assert (HMC : c_mask C = WATCHDOG_ALL) by exact HM.
+  rewrite (kmask_none recursive). rewrite <- HMC at 1. rewrite with_mask_same.
+  specialize (Hrun full_events recursive). fold C in Hrun.
+  destruct (run_from None C full_events (dh_world h) (dh_ops h)) as [evs|] eqn:E; [|contradiction].
+  pose proof (transparent_from_all F C full_events HMC R1 R2 (dh_world h) (dh_ops h) evs Hops E) as H.
+  change (c_recursive C) with recursive in H. rewrite H. reflexivity.
+Qed.
